@@ -1199,3 +1199,43 @@ func (g *G) RecFuncs() []m.Expr {
 		&m.Call{Fn: even.Name, Args: []m.Expr{m.NumLit(float64(g.intn("parity", 6)))}, Ty: m.TBool},
 	}
 }
+
+// EventParams is the documented payload of each event.
+var EventParams = map[string][]m.Param{
+	"key":     {{Name: "k", Ty: m.TStr}},
+	"down":    {{Name: "x", Ty: m.TNum}, {Name: "y", Ty: m.TNum}},
+	"up":      {{Name: "x", Ty: m.TNum}, {Name: "y", Ty: m.TNum}},
+	"move":    {{Name: "x", Ty: m.TNum}, {Name: "y", Ty: m.TNum}},
+	"animate": {{Name: "ms", Ty: m.TNum}},
+	"input":   {{Name: "id", Ty: m.TStr}, {Name: "val", Ty: m.TStr}},
+}
+
+// Handler generates an event handler with one of the accepted signatures:
+// all parameters named, some replaced by "_", or no parameters at all.
+func (g *G) Handler(event string, depth int) *m.Handler {
+	hd := &m.Handler{Event: event}
+	saved := g.scopes
+	g.scopes = [][]*VarInfo{saved[0], nil}
+	if !g.chance("noparams", 1, 3) {
+		for _, p := range EventParams[event] {
+			name := g.name("e")
+			if g.chance("underscore", 1, 3) {
+				name = "_"
+			} else {
+				g.Declare(&VarInfo{Name: name, Ty: p.Ty, Len: -1, NoShadow: true})
+			}
+			hd.Params = append(hd.Params, m.Param{Name: name, Ty: p.Ty})
+		}
+	}
+	wasFunc, wasLoop, wasRet := g.inFunc, g.inLoop, g.retType
+	g.inFunc, g.inLoop, g.retType = true, 0, m.TNone
+	g.forgetAll()
+	params := g.scopes[1]
+	hd.Body = g.Block(depth, "on-"+event)
+	pv := []*VarInfo{}
+	pv = append(pv, params...)
+	hd.Body = append([]m.Stmt{PrintVars("on "+event, pv)}, hd.Body...)
+	g.inFunc, g.inLoop, g.retType = wasFunc, wasLoop, wasRet
+	g.scopes = saved
+	return hd
+}
